@@ -197,7 +197,9 @@ def _worker_chunk(args):
                     entry.update({"plan": rp, "res": strip(res), "min_runs": 0})
                     out["violations"].append(entry)
                     continue
-                if do_min and cnt < 2:
+                if do_min and cnt < 1 and sum(_minimised_raw.values()) < 6:
+                    # at most one minimisation per raw signature and six per worker: a change that breaks things broadly
+                    # must not turn the check into hours of shrinking
                     _minimised_raw[raw] = cnt + 1
                     cap = _engine.min_cap(rp) if hasattr(_engine, "min_cap") else 300
                     mplan, mres, used = minimise(_engine, rp, res, cap)
@@ -452,6 +454,14 @@ def run_check(prop, engine_name, tier, level, rule, assumptions, components, sel
                "min_runs": rep.get("min_runs"), "count_in_batch": len(vs)}
         with open(path, "w") as fh:
             json.dump(rec, fh, indent=1, default=str)
+        if len(reported) >= 8:
+            # enough witnesses were confirmed in a fresh interpreter; the rest are reported as they are
+            rec["fresh_replay_reproduced"] = None
+            with open(path, "w") as fh:
+                json.dump(rec, fh, indent=1, default=str)
+            exit_code = 1
+            reported.append({"signature": rec["signature"], "replay": path, "count": len(vs), "detail": rec["detail"]})
+            continue
         fr = fresh_replay(prop, path)
         if not (fr and fr.get("verdict") == "violation" and sig_tuple(fr) == s):
             # the minimised plan did not reproduce in a fresh interpreter: fall back to the original plan
